@@ -253,7 +253,7 @@ def gen_retract_world(rng):
     g0 = w["workload"]["graphs"][0]
     prof0 = g0["graph"][0]["work_profile"]
     graphs = []
-    for k in range(rng.randint(6, 12)):
+    for k in range(rng.randint(8, 18)):
         graphs.append({"name": "R%d" % k, "graph": [{"name": "T", "work_profile": prof0}], "release_policy": "fixed",
                        "period": rng.choice([3, 5, 10]), "invocations": rng.randint(1, 2), "start": rng.choice([0, 0, 1, 2, 5, 8, 13, 20]),
                        "deadline_variance": [400, 400]})
@@ -269,7 +269,7 @@ def gen_retract_world(rng):
     f.pop("replication_factor", None)
     w["fuzz"] = {"seed": rng.randint(0, 10 ** 6), "lookahead": 0, "retract": True, "release_taskgraphs": False,
                  "p_cancel": rng.choice([0.0, 0.03]), "p_unplaced": rng.choice([0.3, 0.5]), "p_future": 0.9, "p_keep": 0.0,
-                 "p_worker": 0.0, "coarse_units": False}
+                 "p_worker": 0.0, "coarse_units": False, "future_choices": [5, 10, 25, 40, 60, 90]}
     w["policy"] = "FUZZ"
     return w
 
